@@ -129,7 +129,7 @@ fn run_real(ctx: &Ctx, c: &OpCase, qid: u64) -> Result<Vec<Vec<String>>, String>
     let lrows: Vec<Vec<OwnedValue>> = c.l.iter().map(|r| r.iter().map(to_owned).collect()).collect();
     let rrows: Vec<Vec<OwnedValue>> = c.r.iter().map(|r| r.iter().map(to_owned).collect()).collect();
     let spill_dir = if c.spill == "mem" { None } else { Some(std::path::PathBuf::from(format!("{}/spill-{}-{}", ctx.scratch, std::process::id(), qid))) };
-    let mem = match c.spill.as_str() { "spill1" => 1usize, "spill4k" => 4096, _ => 1 << 20 };
+    let mem = match c.spill.as_str() { "spill1" => 1usize, "spill4k" => 4096, s if s.starts_with("spillb") => s[6..].parse().unwrap_or(4096), _ => 1 << 20 };
     let c2 = c.clone();
     let sd = spill_dir.clone();
     let res = guarded(std::panic::AssertUnwindSafe(move || -> Result<Vec<Vec<String>>, String> {
@@ -273,6 +273,28 @@ pub fn run_ops(ctx: &Ctx, rng: &mut Rng, rep: &mut Report) {
                     run_op_case(ctx, rep, &mut model, &c, qid);
                     qid += 1;
                 }
+            }
+        }
+    }
+    // mixed spill state: 16 partitions, a few hundred rows per side (mostly distinct keys, three hot keys, NULL keys),
+    // budgets at which SOME partitions are spilled while later ones are still in memory
+    let big_rows = |rng: &mut Rng, n: usize, base: i64| -> Vec<Vec<V>> {
+        (0..n).map(|i| {
+            let k1 = match rng.below(10) { 0 => V::Null, 1 => V::Int(*rng.pick(&[100_001i64, 100_002, 100_003])), _ => V::Int(rng.below(n as u64 * 2) as i64) };
+            vec![V::Int(base + i as i64), k1, V::Int(*rng.pick(&[7i64, 8]))]
+        }).collect()
+    };
+    let nbig = if ctx.thorough { 6 } else { 1 };
+    for _ in 0..nbig {
+        for kind in ["inner", "left", "right", "full"] {
+            for bytes in [2048usize, 8192, 16384, 24576] {
+                let (nl, nr) = (200 + rng.below(200) as usize, 200 + rng.below(200) as usize);
+                let l = big_rows(rng, nl, 10_000);
+                let r = big_rows(rng, nr, 50_000);
+                let c = OpCase { op: "grace".into(), kind: kind.into(), n: 16, spill: format!("spillb{bytes}"), lk: vec![1], rk: vec![1], wl: 3, wr: 3, l, r, keys: "int".into() };
+                run_op_case(ctx, rep, &mut model, &c, qid);
+                rep.count("mixed_spill_cases");
+                qid += 1;
             }
         }
     }
